@@ -108,6 +108,8 @@ class _W(ast.NodeTransformer):
     def generator_form(self, node, item, call, g):
         is_method = g.cls is not None
         b = bind(g, call, is_method)
+        if b is not None and '__nva__' in b:
+            b = None
         if b is None:
             return node
         body = [s for s in g.node.body if not (isinstance(s, ast.Expr) and isinstance(s.value, ast.Constant))]
